@@ -7,6 +7,7 @@ import (
 	"strconv"
 	"strings"
 	"sync"
+	"sync/atomic"
 	"testing/synctest"
 
 	"github.com/bitcoin-sv/block-headers-service/domains"
@@ -23,19 +24,18 @@ func init() {
 }
 
 type schedTask struct {
-	id       int
-	kind     string // sub | read
-	method   string // repository method it is parked at
-	released bool
-	parked   bool
-	done     bool
-	inAdd    bool // the submitter is inside Chains.Add
+	id     int
+	kind   string // sub | read
+	method string // repository method it is parked at
+	parked bool
+	done   bool
+	inAdd  atomic.Bool   // the submitter is inside Chains.Add (its own flag: no other task synchronises on it)
+	rel    chan struct{} // the scheduler's go-ahead, per task: two tasks released together share nothing on their way
 }
 
 type schedSim struct {
 	r      *Run
 	mu     sync.Mutex
-	cond   *sync.Cond
 	byG    map[int64]*schedTask
 	closed bool
 }
@@ -43,22 +43,27 @@ type schedSim struct {
 // yield parks task t at method m until the scheduler releases it.
 func (s *schedSim) yield(t *schedTask, m string) {
 	s.mu.Lock()
-	defer s.mu.Unlock()
 	if s.closed {
+		s.mu.Unlock()
 		return
 	}
-	t.method, t.parked, t.released = m, true, false
-	for !t.released && !s.closed {
-		s.cond.Wait()
+	t.method, t.parked = m, true
+	if t.rel == nil {
+		t.rel = make(chan struct{}, 1)
 	}
-	t.parked = false
+	rel := t.rel
+	s.mu.Unlock()
+	// durably blocked for the bubble; the scheduler marks the task as running when it sends. Nothing shared is
+	// touched after the wake-up: two tasks released together stay unordered until they meet in the code under test
+	<-rel
 }
 
 func (s *schedSim) release(t *schedTask) {
 	s.mu.Lock()
-	t.released = true
-	s.cond.Broadcast()
+	t.parked = false
+	rel := t.rel
 	s.mu.Unlock()
+	rel <- struct{}{}
 }
 
 // goid returns the id of the calling goroutine (the yield hook has to know which task is calling; all tasks go
@@ -98,7 +103,6 @@ func schedsimExec(r *Run) {
 	w := NewWorld(r)
 	defer w.Destroy()
 	s := &schedSim{r: r}
-	s.cond = sync.NewCond(&s.mu)
 	w.WrapRepo = func(repo *repository.Repositories) {
 		repo.Headers = &hookedHeaders{in: repo.Headers, Before: s.hook}
 	}
@@ -106,8 +110,20 @@ func schedsimExec(r *Run) {
 	defer func() {
 		s.mu.Lock()
 		s.closed = true
-		s.cond.Broadcast()
+		var parked []*schedTask
+		for _, tk := range s.byG {
+			if tk.parked && tk.rel != nil {
+				tk.parked = false
+				parked = append(parked, tk)
+			}
+		}
 		s.mu.Unlock()
+		for _, tk := range parked {
+			select {
+			case tk.rel <- struct{}{}:
+			default:
+			}
+		}
 		synctest.Wait()
 	}()
 	// a small pre-loaded store (sequential) so that forks and reorganisations are within reach
@@ -184,13 +200,9 @@ func schedsimExec(r *Run) {
 			}()
 			for _, raw := range seq {
 				s.yield(tk, "begin-add") // harness yield point between two submissions
-				s.mu.Lock()
-				tk.inAdd = true
-				s.mu.Unlock()
+				tk.inAdd.Store(true)
 				_, _ = chains.Add(toSource(raw))
-				s.mu.Lock()
-				tk.inAdd = false
-				s.mu.Unlock()
+				tk.inAdd.Store(false)
 			}
 		}()
 	}
@@ -265,7 +277,7 @@ func schedsimExec(r *Run) {
 		if !overlap {
 			busy := false
 			for _, tk := range tasks {
-				if tk.inAdd && !tk.done {
+				if tk.inAdd.Load() && !tk.done {
 					busy = true
 				}
 			}
@@ -313,6 +325,19 @@ func schedsimExec(r *Run) {
 		r.Step++
 		schedule = append(schedule, fmt.Sprintf("%d:%s", pick.id, pick.method))
 		r.Logf("run task %d (%s) at %s", pick.id, pick.kind, pick.method)
+		if r.Opt["race"] == "1" && overlap && pick.method == "begin-add" {
+			// race class: every submitter that is about to enter Chains.Add enters it together with this one,
+			// with nothing ordering them (what the experimental engine's reader goroutines do): the stretch of
+			// Add up to its first repository call - hashing the header - then runs unordered, and the race
+			// detector sees whatever state those callers share
+			for _, tk := range ready {
+				if tk != pick && tk.kind == "sub" && tk.method == "begin-add" {
+					schedule = append(schedule, fmt.Sprintf("%d:%s(co)", tk.id, tk.method))
+					r.Probe("co-released-submitters")
+					s.release(tk)
+				}
+			}
+		}
 		s.release(pick)
 	}
 	synctest.Wait()
